@@ -705,6 +705,8 @@ def run_reserve(pair, rng, variant, opts):
         for delta in (0, 1, -1):
             if amt + delta > 0:
                 tr.call(OWNER, "deposit", esdts=[(LP_TOK, 0, amt + delta)], probe=True)
+        if amt > 0:
+            tr.call(OWNER, "deposit", esdts=[(5, 0, amt)], probe=True)   # right amount, wrong token (token 5 is used by nothing else)
         return g
 
     deposited = False
